@@ -476,6 +476,35 @@ func runC16(r *Run) {
 		e := s + 1 + r.rng.IntN(n-s)
 		c16Range(r, roots, uint64(s), uint64(e), "range-random", i%5 == 0)
 	}
+	// contracts with more sectors than a sector has leaves (65536): sizes recomputed by the model, honest proofs verified
+	for _, n := range []int{65535, 65536, 65537, 70000, 131072, 131075} {
+		roots := make([]types.Hash256, n)
+		for i := range roots {
+			roots[i][0], roots[i][1], roots[i][2], roots[i][3] = byte(i), byte(i>>8), byte(i>>16), 0x5c
+		}
+		root := rhp2.MetaRoot(roots)
+		for k := 0; k < r.pick(4, 40); k++ {
+			s := r.rng.IntN(n)
+			if k%2 == 0 {
+				s = 65000 + r.rng.IntN(n-65000)
+			}
+			e := s + 1 + r.rng.IntN(min(n-s, 700))
+			proof := rhp2.BuildSectorRangeProof(roots, uint64(s), uint64(e))
+			sz := rhp2.RangeProofSize(uint64(n), uint64(s), uint64(e))
+			r.emit(true, "range-large", "c16.sizes", []string{hx(uint64(n)), hx(uint64(s)), hx(uint64(e))}, []string{hx(sz)})
+			r.count("oracle-range-large")
+			if uint64(len(proof)) != sz {
+				r.violate("c16.range-size", "RangeProofSize(%d,%d,%d)=%d but the built proof has %d hashes", n, s, e, sz, len(proof))
+			}
+			if !rhp2.VerifySectorRangeProof(proof, roots[s:e], uint64(s), uint64(e), uint64(n), root) {
+				r.violate("c16.range-honest", "the honest range proof for sectors [%d,%d) of %d is rejected", s, e, n)
+			}
+			p4 := rhp4.BuildSectorRootsProof(roots, uint64(s), uint64(e))
+			if !rhp4.VerifySectorRootsProof(p4, roots[s:e], uint64(n), uint64(s), uint64(e), root) {
+				r.violate("c16.range-honest", "the honest rhp/v4 sector roots proof for [%d,%d) of %d is rejected", s, e, n)
+			}
+		}
+	}
 	// append proofs
 	for n := 0; n <= r.pick(20, 80); n++ {
 		for _, k := range []int{1, 2, 3, 7} {
